@@ -94,4 +94,5 @@ func genericPack(c *Ctx) {
 	ruleNilBreak(c, "G-NIL-ELEMENT-BREAK", pkgs)
 	ruleWalkCut(c, "G-WALK-CUT", pkgs, 0)
 	ruleMarkBeforeStateTest(c, "G-MARK-BEFORE-STATE-TEST", pkgs)
+	ruleErrPathUnseen(c, "G-ERR-PATH-UNSEEN", pkgs)
 }
